@@ -68,8 +68,14 @@ def run(rep, progs, tier):
         rep.rule(r, t)
     rep.trusted = ["rustc MIR construction", "mpdfacts exporter", "MPD protocol reference (song attribute lines)",
                    "iteration order of Frame (C19)"]
+    rep.rule("C14.lossless", "no element-dropping / reordering adapter between the frame and the song builder (C16's rule over the reply decoders, decided here for C14's clause)")
     for cfg, prog in progs.items():
         one(rep, prog, cfg)
+        # every line of the listing reaches the builder: a filter in front of it (dropping `directory` lines together with "their"
+        # Last-Modified, say) decides what belongs to a song by other means than the builder's own state
+        from .C16 import lossless_iter_rule
+        with rep.importing("C16.lossless-iter", "C14.lossless"):
+            lossless_iter_rule(rep, prog, cfg)
 
 
 def one(rep, prog, cfg):
